@@ -137,7 +137,10 @@ fn main() {
                 let v: usize = args[i].parse().expect("--max-per-kind N");
                 util::with(|s| s.max_per_key = v);
             }
-            "--stats" => stats = true,
+            "--stats" => {
+                stats = true;
+                util::with(|s| s.stats = true);
+            }
             "--list" => {
                 for (n, _) in sections() {
                     println!("{}", n);
